@@ -53,9 +53,27 @@ def _ctl_fresh(z, k):
 '''
 
 
+def _is_state_attr(ci, attr):
+    """`_k` backing a public property k with a setter (or the sample buffer): observable state of the object."""
+    if attr in ("_data", "data"):
+        return True
+    pr = ci.find_property(attr.lstrip("_")) if ci is not None else None
+    if pr is not None and pr.get("set") is not None:
+        return True
+    return not attr.startswith("_")
+
+
 def sanction(fi, node, how):
+    import re
     if fi.qualname == "Signal.__array_ufunc__" and how.startswith("out= argument"):
         return "explicit NumPy out=/in-place protocol: the caller names the signal as the target"
+    m = re.match(r"attribute store 'self\.(\w+) = \.\.\.'", how)
+    if m and fi.cls is not None and fi.kind in ("method", "property") and not _is_state_attr(fi.cls, m.group(1)):
+        return ("private derived attribute (memoised value / flag), not part of the object's observable state; its coherence with the state "
+                "it is computed from is decided by rule RS (pbverif/coherence.py)")
+    if fi.kind == "setter" or fi.name == "__init__":
+        if re.match(r"mutating method \.(pop|clear|update|setdefault|__setitem__|__delitem__)\(\) on '(self\.__dict__|vars\(self\))'", how):
+            return "object under construction (constructor / property setter writes self through its instance dictionary)"
     return None
 
 
